@@ -61,6 +61,30 @@ FracMapsQ == { ("a" :> <<1, 2>>),
                ("b" :> <<1, 4>>) @@ ("c" :> <<1, 4>>),
                ("a" :> <<1, 5>>) @@ ("b" :> <<4, 5>>),
                ("c" :> <<1, 1>>) }
+\* vector calls: additions, removals (negative), zero entries; nuclides some objects do not hold
+AddMapsQ == { ("a" :> <<2, 1>>) @@ ("b" :> <<-1, 2>>) @@ ("c" :> Z),
+              ("b" :> <<-1, 1>>) @@ ("c" :> <<3, 1>>),
+              ("a" :> <<-1, 2>>) }
+SetMapsQ == { ("a" :> <<6, 1>>) @@ ("c" :> <<1, 1>>),
+              ("a" :> <<1, 1>>) @@ ("b" :> Z),
+              ("b" :> <<5, 2>>) }
+AddMapsT == AddMapsQ \cup { ("a" :> <<1, 1>>) @@ ("b" :> <<1, 1>>) @@ ("c" :> <<-1, 2>>), ("c" :> <<-1, 1>>) }
+SetMapsT == SetMapsQ \cup { ("a" :> <<2, 1>>) @@ ("b" :> <<3, 1>>) @@ ("c" :> <<1, 2>>) }
+HDom123 == {1, 2, 3}
+None == {}
+\* the narrow three-edits-deep emission (edit above a block ; change the block's height ; edit above it again)
+ValsG   == {<<3, 2>>}
+MassesG == {<<6, 1>>}
+AddMapsG == { ("a" :> <<2, 1>>) @@ ("b" :> <<-1, 2>>) }
+TCoreTargetsG == {10, 12}
+TCoreTargetsG1 == {10}
+HVals2 == {2}
+TCoreH7 == {7}
+TCoreH78 == {7, 8}
+TCoreHAll == {7, 8, 9}
+TBlkHAll == {4}
+TEdgeH8 == {8}
+TEdgeHAll == {7, 8, 9, 10}
 ValsT   == ValsQ \cup {<<2, 1>>, <<1, 3>>}
 FacsT   == FacsQ \cup {<<3, 2>>}
 MassesT == MassesQ \cup {<<5, 2>>}
@@ -84,7 +108,11 @@ BAddMass == G /\ DoAddMass
 BRemoveMass == G /\ DoRemoveMass
 BSetMass == G /\ DoSetMass
 BSetMassFracs == G /\ DoSetMassFracs
+BAddMasses == G /\ DoAddMasses
+BSetMasses == G /\ DoSetMasses
+BSetHeight == G /\ DoSetHeight
 NextB == BSetN \/ BUpdateN \/ BSetNs \/ BScale \/ BClear \/ BAddMass \/ BRemoveMass \/ BSetMass \/ BSetMassFracs
+         \/ BAddMasses \/ BSetMasses \/ BSetHeight
 View  == <<vars, depth>>
 Emit  == PrintT(ToJson([lvl |-> depth, from |-> Vars, act |-> act', to |-> Vars', err |-> err']))
 EmitState == PrintT(ToJson([st |-> Vars, obs |-> Obs]))
